@@ -160,6 +160,29 @@ func excerpt(tr []string, n int) []string {
 	return append(out, tr[len(tr)-n/2:]...)
 }
 
+// firstReportable returns the first violation that is not a known finding, or nil; a known panic ends
+// the judged part of a run.
+func (w *Worker) firstReportable(vs []Violation) (*Violation, bool) {
+	hitKnown := false
+	for i := range vs {
+		o := vs[i]
+		if w.known[o.Key()] {
+			hitKnown = true
+			if o.Oracle == "no-panic" {
+				return nil, true
+			}
+			continue
+		}
+		return &vs[i], hitKnown
+	}
+	return nil, hitKnown
+}
+
+func (w *Worker) reports(vs []Violation, key string) bool {
+	v, _ := w.firstReportable(vs)
+	return v != nil && v.Key() == key
+}
+
 func hasKey(vs []Violation, key string) bool {
 	for _, v := range vs {
 		if v.Key() == key {
@@ -194,26 +217,14 @@ func (w *Worker) handleViolations(spec RunSpec, res RunResult) {
 	// The first violation that is not a known finding is the one reported (later ones are usually
 	// consequences). A known finding that is a panic ends the run as far as the oracles are
 	// concerned: in production the process would have died there, so nothing after it is judged.
-	var v Violation
-	key := ""
-	hitKnown := false
-	for _, o := range res.Violations {
-		if w.known[o.Key()] {
-			hitKnown = true
-			if o.Oracle == "no-panic" {
-				break
-			}
-			continue
-		}
-		v, key = o, o.Key()
-		break
-	}
+	v, hitKnown := w.firstReportable(res.Violations)
 	if hitKnown {
 		w.Out.RunsAfterKnown++
 	}
-	if key == "" {
+	if v == nil {
 		return
 	}
+	key := v.Key()
 	if w.seen[key] {
 		return
 	}
@@ -223,7 +234,7 @@ func (w *Worker) handleViolations(spec RunSpec, res RunResult) {
 	rs.Tape = res.Tape
 	rs.Trace = true
 	rep := Execute(w.t, rs)
-	if !hasKey(rep.Violations, key) || rep.Hash != res.Hash {
+	if !w.reports(rep.Violations, key) || rep.Hash != res.Hash {
 		w.Out.DetFailures = append(w.Out.DetFailures, fmt.Sprintf("violation %s of %s/%s #%d params=%v did not reproduce on replay (hash %x vs %x, violations %v)", key, spec.Property, spec.Scenario, spec.Index, spec.Params, res.Hash, rep.Hash, rep.Violations))
 		return
 	}
@@ -232,7 +243,7 @@ func (w *Worker) handleViolations(spec RunSpec, res RunResult) {
 	ms.Tape = min
 	ms.Trace = true
 	final := Execute(w.t, ms)
-	if !hasKey(final.Violations, key) {
+	if !w.reports(final.Violations, key) {
 		// cannot happen (shrink only keeps failing tapes); fall back to the original
 		ms.Tape = res.Tape
 		final = rep
@@ -269,7 +280,7 @@ func (w *Worker) shrink(spec RunSpec, key string, tape []uint32) []uint32 {
 			s.Tape = []uint32{}
 		}
 		res := Execute(w.t, s)
-		return res.BubblePanic == "" && hasKey(res.Violations, key)
+		return res.BubblePanic == "" && w.reports(res.Violations, key)
 	}
 	// 1. shortest failing prefix (binary search, then verify)
 	lo, hi := 0, len(cur)
